@@ -137,8 +137,10 @@ inline LD coeff_w_min(const Spec& s, const VecL& c) {
 
 // block-relative Jacobian comparison on the tangent partition (lin | ang | time) of each element:
 // for each (row-part, col-part) block: max|dJ| / max(1, max|Jref| on the block)
+// extra_scale (optional, same shape): entrywise magnitude bound whose block maximum joins the scale; used
+// for product identities A*B = C where the natural rounding scale is |A|*|B|, not |C|.
 inline LD jac_block_err(const Spec& s, const MatL& got, const MatL& want, bool rows_are_tangent = true,
-                        bool cols_are_tangent = true) {
+                        bool cols_are_tangent = true, const MatL* extra_scale = nullptr) {
   auto parts = [&](bool tangent, int total) {
     std::vector<int> id(total, 0);
     if (!tangent) return id;
@@ -163,10 +165,35 @@ inline LD jac_block_err(const Spec& s, const MatL& got, const MatL& want, bool r
     auto& b = blk[{rid[r], cid[c]}];
     b.first = std::max(b.first, d);
     b.second = std::max(b.second, fabsl(want(r, c)));
+    if (extra_scale) b.second = std::max(b.second, fabsl((*extra_scale)(r, c)));
   }
   LD worst = 0;
   for (auto& kv : blk) worst = std::max(worst, kv.second.first / std::max<LD>(1, kv.second.second));
   return worst;
+}
+
+// D x D matrix holding S[b] on the rows of element b that belong to linear (translation-like) tangent
+// components, 0 elsewhere: the rounding scale of quantities such as skew(p - t v) R inside an adjoint.
+inline MatL lin_row_scale(const Spec& s, const std::vector<LD>& S) {
+  MatL m = MatL::Zero(s.dof(), s.dof());
+  for (size_t b = 0; b < s.e.size(); ++b) {
+    const Elem& e = s.e[b];
+    int o = s.dof_off((int)b);
+    for (int i = 0; i < e.dof(); ++i) {
+      bool is_ang = e.k != K_RN && i >= e.ang0() && i < e.ang0() + e.nang();
+      bool is_time = e.k == K_SGAL3 && i == 9;
+      if (is_ang || is_time) continue;
+      for (int j = 0; j < e.dof(); ++j) m(o + i, o + j) = S[b];
+    }
+  }
+  return m;
+}
+
+// residual of a product identity A*B = want, block-relative to max(1, |want|, |A|*|B|)
+inline LD prod_block_err(const Spec& s, const MatL& A, const MatL& B, const MatL& want) {
+  const MatL P = A * B;
+  const MatL sc = A.cwiseAbs() * B.cwiseAbs();
+  return jac_block_err(s, P, want, true, true, &sc);
 }
 
 template <class T> std::string fmt(const T& x) { std::ostringstream s; s.precision(6); s << x; return s.str(); }
